@@ -146,9 +146,9 @@ def MOp.gid : MOp K A C → Gid
 theorem step_private (rc : C → K → A → R) (s : St K C R) (op : MOp K A C) (h : op.isPrivate = true) :
     (step rc s op).1 = ⟨liveStep s.live op, s.memo⟩ ∧ ((step rc s op).2 = .ok ∨ (step rc s op).2 = .illFormed) := by
   cases op with
-  | alloc g c => exact ⟨rfl, by simp only [step]; split <;> simp⟩
-  | mutate g c => exact ⟨rfl, by simp only [step]; split <;> simp⟩
-  | drop g => exact ⟨rfl, by simp only [step]; split <;> simp⟩
+  | alloc g c => simp only [step, liveStep, liveStepAux, liveOk]; split <;> simp_all
+  | mutate g c => simp only [step, liveStep, liveStepAux, liveOk]; split <;> simp_all
+  | drop g => simp only [step, liveStep, liveStepAux, liveOk]; split <;> simp_all
   | clear g => cases h
   | query g k a => cases h
   | lookup g k a => cases h
@@ -156,13 +156,20 @@ theorem step_private (rc : C → K → A → R) (s : St K C R) (op : MOp K A C) 
 
 theorem step_private_out (rc : C → K → A → R) (l : Gid → Option C) (m m' : Memo K R) (op : MOp K A C)
     (h : op.isPrivate = true) : (step rc ⟨l, m⟩ op).2 = (step rc ⟨l, m'⟩ op).2 := by
-  cases op <;> first | rfl | cases h
+  cases op with
+  | alloc g c => simp only [step]; split <;> rfl
+  | mutate g c => simp only [step]; split <;> rfl
+  | drop g => simp only [step]; split <;> rfl
+  | clear g => cases h
+  | query g k a => cases h
+  | lookup g k a => cases h
+  | store g k a => cases h
 
 theorem liveStep_other (l : Gid → Option C) (op : MOp K A C) (g' : Gid) (h : g' ≠ op.gid) : liveStep l op g' = l g' := by
   cases op with
-  | alloc g c => simp only [MOp.gid] at h; simp only [liveStep]; split <;> simp [h]
-  | mutate g c => simp only [MOp.gid] at h; simp only [liveStep]; split <;> simp [h]
-  | drop g => simp only [MOp.gid] at h; simp only [liveStep]; split <;> simp [h]
+  | alloc g c => simp only [MOp.gid] at h; simp only [liveStep, liveStepAux]; split <;> simp [h]
+  | mutate g c => simp only [MOp.gid] at h; simp only [liveStep, liveStepAux]; split <;> simp [h]
+  | drop g => simp only [MOp.gid] at h; simp only [liveStep, liveStepAux]; split <;> simp [h]
   | clear g => rfl
   | query g k a => rfl
   | lookup g k a => rfl
@@ -174,22 +181,22 @@ theorem liveStep_public (l : Gid → Option C) (op : MOp K A C) (h : op.isPrivat
 /-- `live` evolves independently of the memo table -/
 theorem step_live (rc : C → K → A → R) (s : St K C R) (op : MOp K A C) : (step rc s op).1.live = liveStep s.live op := by
   cases op with
-  | alloc g c => rfl
-  | mutate g c => rfl
-  | drop g => rfl
+  | alloc g c => exact congrArg St.live (step_private rc s (.alloc g c) rfl).1
+  | mutate g c => exact congrArg St.live (step_private rc s (.mutate g c) rfl).1
+  | drop g => exact congrArg St.live (step_private rc s (.drop g) rfl).1
   | clear g => rfl
   | lookup g k a =>
-    simp only [step, liveStep]
+    simp only [step, liveStep, liveStepAux]
     split
     · rfl
     · split <;> rfl
   | store g k a =>
-    simp only [step, liveStep]
+    simp only [step, liveStep, liveStepAux]
     split
     · rfl
     · split <;> rfl
   | query g k a =>
-    simp only [step, liveStep]
+    simp only [step, liveStep, liveStepAux]
     split
     · rfl
     · split
@@ -199,9 +206,9 @@ theorem step_live (rc : C → K → A → R) (s : St K C R) (op : MOp K A C) : (
 theorem step_memo_keeps (rc : C → K → A → R) (s : St K C R) (op : MOp K A C) (g' : Gid) (h : s.memo g' ≠ none) :
     (step rc s op).1.memo g' ≠ none := by
   cases op with
-  | alloc g c => exact h
-  | mutate g c => exact h
-  | drop g => exact h
+  | alloc g c => rw [(step_private rc s (.alloc g c) rfl).1]; exact h
+  | mutate g c => rw [(step_private rc s (.mutate g c) rfl).1]; exact h
+  | drop g => rw [(step_private rc s (.drop g) rfl).1]; exact h
   | clear g => exact clear_keeps _ _ _ h
   | lookup g k a =>
     simp only [step]
@@ -547,9 +554,18 @@ theorem sim_step (rc : C → K → A → R) (l : Gid → Option C) (m m' : Memo 
     (step rc ⟨l, m⟩ op).2 = (step rc ⟨l, m'⟩ op).2 ∧
     Sim e' x' (step rc ⟨l, m⟩ op).1.memo (step rc ⟨l, m'⟩ op).1.memo := by
   cases op with
-  | alloc g c => simp only [isoOf, Option.some.injEq, Prod.mk.injEq] at hi; obtain ⟨rfl, rfl⟩ := hi; exact ⟨rfl, sim⟩
-  | mutate g c => simp only [isoOf, Option.some.injEq, Prod.mk.injEq] at hi; obtain ⟨rfl, rfl⟩ := hi; exact ⟨rfl, sim⟩
-  | drop g => simp only [isoOf, Option.some.injEq, Prod.mk.injEq] at hi; obtain ⟨rfl, rfl⟩ := hi; exact ⟨rfl, sim⟩
+  | alloc g c =>
+    simp only [isoOf, Option.some.injEq, Prod.mk.injEq] at hi; obtain ⟨rfl, rfl⟩ := hi
+    rw [(step_private rc ⟨l, m⟩ (.alloc g c) rfl).1, (step_private rc ⟨l, m'⟩ (.alloc g c) rfl).1]
+    exact ⟨step_private_out rc l m m' (.alloc g c) rfl, sim⟩
+  | mutate g c =>
+    simp only [isoOf, Option.some.injEq, Prod.mk.injEq] at hi; obtain ⟨rfl, rfl⟩ := hi
+    rw [(step_private rc ⟨l, m⟩ (.mutate g c) rfl).1, (step_private rc ⟨l, m'⟩ (.mutate g c) rfl).1]
+    exact ⟨step_private_out rc l m m' (.mutate g c) rfl, sim⟩
+  | drop g =>
+    simp only [isoOf, Option.some.injEq, Prod.mk.injEq] at hi; obtain ⟨rfl, rfl⟩ := hi
+    rw [(step_private rc ⟨l, m⟩ (.drop g) rfl).1, (step_private rc ⟨l, m'⟩ (.drop g) rfl).1]
+    exact ⟨step_private_out rc l m m' (.drop g) rfl, sim⟩
   | clear g =>
     simp only [isoOf, Option.some.injEq, Prod.mk.injEq] at hi
     obtain ⟨rfl, rfl⟩ := hi
@@ -641,9 +657,9 @@ theorem dirty_step (rc : C → K → A → R) (s : St K C R) (d : List Gid) (op 
     ∀ g, g ∉ dirtyOf d op → ∀ k, (step rc s op).1.memo.look g k = none := by
   intro g0 hg0 k0
   cases op with
-  | alloc g c => exact hs g0 hg0 k0
-  | mutate g c => exact hs g0 hg0 k0
-  | drop g => exact hs g0 hg0 k0
+  | alloc g c => rw [(step_private rc s (.alloc g c) rfl).1]; exact hs g0 hg0 k0
+  | mutate g c => rw [(step_private rc s (.mutate g c) rfl).1]; exact hs g0 hg0 k0
+  | drop g => rw [(step_private rc s (.drop g) rfl).1]; exact hs g0 hg0 k0
   | clear g =>
     simp only [dirtyOf] at hg0
     simp only [step, look_clear]
